@@ -244,8 +244,10 @@ def circuit_is_isomorphic(circuit1, circuit2):
 
 def _create_edge_control_target_attr(operation, reg_type, reg):
     """
-    Helper function that return the correct control_target attribute for the edge, base on reg_type, reg, and operation.
-    If the operation is ControlledPairOperationBase return either 'c' or 't' else return None.
+    Helper function that returns the role the register (reg_type, reg) plays in the operation: 'c' (control) or 't'
+    (target) for ControlledPairOperationBase and ClassicalControlledPairOperationBase, 'm' for the classical register an
+    operation writes its measurement result to, None otherwise (one-register operations, input and output nodes).
+    Two different registers of one operation never have the same role.
 
     :param operation: operation
     :type operation: OperationBase
@@ -253,19 +255,31 @@ def _create_edge_control_target_attr(operation, reg_type, reg):
     :type reg_type: str
     :param reg: register
     :type reg: int
-    :return: control_target attribute. Can be 'c', 't' or None
+    :return: the role of the register in the operation. Can be 'c', 't', 'm' or None
     :rtype: str or nothing
     """
-    if isinstance(operation, ControlledPairOperationBase):
+    if isinstance(
+        operation, (ControlledPairOperationBase, ClassicalControlledPairOperationBase)
+    ):
         if reg_type == operation.control_type and reg == operation.control:
             return "c"
         if reg_type == operation.target_type and reg == operation.target:
             return "t"
+    if (
+        reg_type == "c"
+        and not isinstance(operation, InputOutputOperationBase)
+        and reg in operation.c_registers
+    ):
+        return "m"
 
 
 def add_control_target_to_dag(circuit):
     """
-    Process the input circuit DAG and add control_target attribute to edges.
+    Process the input circuit DAG and add control_target attribute to edges. The attribute of an edge is the pair
+    (role of the edge's register in the operation the edge leaves, role of the register in the operation the edge
+    enters), see _create_edge_control_target_attr. Matching both ends of every edge makes an isomorphism follow each
+    register through the two-register operations: the register that enters an operation as, say, its control leaves
+    it on the edge whose first component is 'c'.
 
     :param circuit: circuit
     :type circuit: CircuitDAG
@@ -277,25 +291,23 @@ def add_control_target_to_dag(circuit):
         op = circuit.dag.nodes[node]["op"]
         reg_type = op.reg_type
         register = op.register
+        tail_role = None
 
-        out_edges = circuit.dag.out_edges(nbunch=node, keys=True)
-        edge = circuit.edge_from_reg(out_edges, f"{reg_type}{register}")
-        next_node = edge[1]
-        label = edge[2]
-
-        while next_node not in circuit.node_dict["Output"]:
-            op = circuit.dag.nodes[next_node]["op"]
-            control_target = _create_edge_control_target_attr(op, reg_type, register)
-            circuit.dag[node][next_node][label]["control_target"] = control_target
-
-            node = next_node
+        while node not in circuit.node_dict["Output"]:
             out_edges = circuit.dag.out_edges(nbunch=node, keys=True)
             edge = circuit.edge_from_reg(out_edges, f"{reg_type}{register}")
             next_node = edge[1]
             label = edge[2]
 
-        control_target = _create_edge_control_target_attr(op, reg_type, register)
-        circuit.dag[node][next_node][label]["control_target"] = control_target
+            next_op = circuit.dag.nodes[next_node]["op"]
+            head_role = _create_edge_control_target_attr(next_op, reg_type, register)
+            circuit.dag[node][next_node][label]["control_target"] = (
+                tail_role,
+                head_role,
+            )
+
+            node = next_node
+            tail_role = head_role
 
 
 def remove_redundant_circuits(circuit_list):
